@@ -24,6 +24,9 @@ CHECKS['C06'] = dict(cat='other', technique='exhaustive constant-propagation gri
 CHECKS['C03'] = dict(cat='other', technique='all-paths energy summation over the CFG of each de-excitation unit after constant propagation of the entry level; sibling-agreement and dominance rules on decay0_bb / genbbsub',
    text='Decides the clauses whose truth is in the shape of the code: (1) in each of the 45 *low units, for each of the 173 levels it dispatches on, every CFG path to return emits transitions summing to the level energy within 3 keV (set-valued fixpoint over the residual CFG; rejection loops must emit nothing); (2) every level energy genbbsub tabulates is dispatched by the routine it calls; (3) every isotope with an excited level has a de-excitation arm; (4) the e0 formulas of decay0_bb and of the genbbsub energy check agree case by case; (5) e2 = e0 - e1 exactly for the 0nubb_* modes; (6) the window clamps dominate the spectrum computation. Together with C02 these are the structural reason the 0nu sum equals Q.',
    note='Not decided: that sampled lepton energies fall inside the window, ratio >= 1 / monotone (numerical integration), alpha-chain energy closure. Known findings: Dy162low 626 keV transition (inherited from the reference), three missing cascades.', ref='3/C03')
+CHECKS['C04'] = dict(cat='other', technique='per-call-site sign/species classification, all-paths particle-count summaries composed through the dispatch, loop-progress and dominance rules over 241 functions on generation paths',
+   text='Decides: species (every particle-code argument is one of the four supported codes), sign class of every creation-time argument at all ~3000 emission call sites and of every decay-time formula, the daughter-chain shape (called at time 0, block shifted from the index captured just before), non-negative constant emission energies (2500 sites), 1..100 particles per published name over all CFG paths (unit summaries composed through the specialised dispatch; infeasible threshold paths pruned), label/time-0 on every generate path including the gA branch, and for each of the 20 rejection loops that a fresh deviate is drawn on every iteration and the exit depends on it (necessary for termination).',
+   note='Not decided: an actual bound on the number of deviates, finiteness of sampled (non-constant) energies, termination of deterministic loops. Observation recorded: Te124low thlev=0.55-12 (negative half-life, inherited from the reference; harmless because of the thlev>0 guard).', ref='3/C04')
 NA = {}
 
 def main():
